@@ -431,11 +431,19 @@ def throw_grid(cfg, kmax=7, thorough=False):
                    "erase_key 0 %d" % (t[0] if t else 1), "erase_pos 0 0" if t else "clear 0", "erase_range 0 0 %d" % min(2, len(t))]
             if cfg.flat:
                 ops += ["assign_vector 0 %s" % _vs(src), "from_vector 2 %s" % _vs(src), "steal_vector 1"]
+            # node handles: the element extracted from set 1 is inserted into set 0 (a failed insertion leaves it in the node)
+            ops += [("extract_key 1 %d" % src[0], "insert_node 0 1"), ("extract_key 1 %d" % src[-1], "insert_node_hint 0 1 0"),
+                    ("extract_key 1 %d" % src[0], "insert_node_hint 0 1 %d" % len(t))]
             for op in ops:
+                pre_op = None
+                if isinstance(op, tuple):
+                    pre_op, op = op
                 for k in range(kmax):
                     out.append("H tg%d.%d.%d.%d" % (ti, si, hid, k))
                     out.append("ctor_range 0 %s" % _vs(t))
                     out.append("ctor_range 1 %s" % _vs(src))
+                    if pre_op:
+                        out.append(pre_op)
                     out.append("!%d %s" % (k, op))
                     # the sets are still sets, and usable
                     for key in sorted(set(t + src))[:6]:
